@@ -2,7 +2,7 @@
 """Import independently confirmed seeded changes from /tmp/seed-*/k into /verif/seeded/<name>/."""
 import json, os, shutil, glob
 root = os.path.dirname(os.path.dirname(os.path.abspath(__file__)))
-for conf in sorted(glob.glob("/tmp/seed-C*/[0-9]/confirm.json") + glob.glob("/tmp/seed2-C*/[0-9]/confirm.json")):
+for conf in sorted(glob.glob("/tmp/seed-C*/[0-9]/confirm.json") + glob.glob("/tmp/seed2-C*/[0-9]/confirm.json") + glob.glob("/tmp/seed3-C*/[0-9]/confirm.json")):
     d = os.path.dirname(conf)
     r = json.load(open(conf))
     ok = all(r.get(k) for k in ("patch_applies", "build", "suite_passes_with_change", "demo_fails_with_change", "demo_passes_without_change"))
